@@ -6,7 +6,8 @@ From CiwV Require Acc.C17.
 From CiwV Require Acc.C19.
 From CiwV Require Acc.C20.
 From CiwV.Engine Require Codec.
-From CiwV.Inv Require ConserveRun.
+From CiwV.Engine Require Codec2.
+From CiwV.Inv Require ConserveRun CapacityRun.
 Import ListNotations.
 Open Scope Z_scope.
 
@@ -41,7 +42,10 @@ Fixpoint upto (m : nat) : list nat := match m with O => [O] | S k => upto k ++ [
 
 Definition dispatch_model (name : Z) (s : sx) : sx :=
   match name with
+  | 35 => CapacityRun.run_capb s   (* capacity hypotheses of engine_capacity on a snapshot *)
   | 34 => ConserveRun.run_wfx s   (* does a snapshot satisfy the conservation invariant WFx []? *)
+  | 33 => Codec2.run_wrap s  (* engine model stage 2: Simulation.wrap_up_servers(T) *)
+  | 32 => Codec2.run_step s  (* engine model stage 2: one event from the implementation's snapshot *)
   | 31 => Codec.run_wrap s   (* engine model: Simulation.wrap_up_servers(T) *)
   | 30 => Codec.run_step s   (* engine model: one event from the implementation's snapshot *)
   | 12 => (* Schedule object: states after 0..m calls of get_next_shift *)
